@@ -22,9 +22,13 @@ MemberOk(e) == LET A == FL(e, A0(e))
 TypeOk(e) == IF e.pos \in {"alias", "const"}
              THEN Conf(e.lang, Cfg(e), FL(e, A0(e)), FL(e, e.ty))
              ELSE MemberOk(e)
+\* where the target type states a LENGTH (a TypeScript tuple [T, T, T]), it is the length of an array of the Rust expression
+\* (e.fixed_lens: the lengths the observed type states; e.rust_lens: the lengths of the arrays of the Rust type)
+LengthsOk(e) == ("fixed_lens" \in DOMAIN e) =>
+    \A k \in 1..Len(e.fixed_lens) : \E j \in 1..Len(e.rust_lens) : e.fixed_lens[k] = e.rust_lens[j]
 Init == i = 1 /\ bad = <<>>
 Next == /\ i <= Len(Rec)
-        /\ bad' = IF TypeOk(Rec[i]) THEN bad ELSE Append(bad, i)
+        /\ bad' = IF TypeOk(Rec[i]) /\ LengthsOk(Rec[i]) THEN bad ELSE Append(bad, i)
         /\ i' = i + 1
 Report == (i = Len(Rec) + 1) => PrintT(<<"INFO", "bad", ToJson(bad)>>)
 Accepted == PrintT(<<"INFO", "matched", TLCGet("stats").diameter - 1>>)
